@@ -5,6 +5,7 @@ mod fsys;
 mod model;
 mod ops;
 mod simlayer;
+mod uringsim;
 mod uring;
 
 use std::time::Duration;
@@ -425,7 +426,7 @@ fn main() {
         }
         "C18" => {
             let mut rep = Report::new("C18", tier, "model_checking", "fsx");
-            rep.rule = "explicit-state BFS over histories of push / submit / advance / drain / cancel / close / crash on one or two simulated rings and one file (Fs and IoUringHostState entered directly, harness-owned time, scripted Fs::rng for the completion shuffle); every CQE is matched against an order-agnostic reference (eligible now, result equal to the synchronous API on the reference file, buffers untouched on error), and a fair suffix checks exactly-once completion and silence after a crash".into();
+            rep.rule = "explicit-state BFS over histories of push / submit / advance / drain / cancel / close / crash on one or two simulated rings and one file (Fs and IoUringHostState entered directly, harness-owned time, scripted Fs::rng for the completion shuffle); every CQE is matched against an order-agnostic reference (eligible now, result equal to the synchronous API on the reference file, buffers untouched on error), and a fair suffix checks exactly-once completion and silence after a crash; last part: stateless enumeration through a running Sim (tick x latency x queue depth x batches x drain pattern {readable loop, readable + one CQE, late drain, polling} x in-step submission offset x crash before every step x bounce delay), time measured in steps on the clock the ring uses".into();
             for c in c18_configs(tier) {
                 let mut b = BfsConfig::new(&c.name);
                 b.scenario = c.describe();
@@ -440,6 +441,16 @@ fn main() {
                 rep.violations.extend(st.violations);
                 rep.add_part(st.part);
             }
+            {
+                // the same subject through a running Sim: AsyncFd::readable loops, late drains,
+                // full-queue pushes, crash between submission and completion, bounce
+                let mut d = vx_core::DfsConfig::new("readable-loops-and-crashes-through-sim", 0);
+                d.wall = wall;
+                let thorough = tier == Tier::Thorough;
+                let st = vx_core::explore_dfs(&d, move |ch| uringsim::scenario(ch, thorough));
+                rep.violations.extend(st.violations);
+                rep.add_part(st.part);
+            }
             rep.finish();
         }
         other => vx_core::machinery_error(&format!("vx-fsx does not serve {other}")),
@@ -448,6 +459,25 @@ fn main() {
 
 fn replay(path: &str) {
     let (prop, scenario, choices) = vx_core::report::load_replay(path);
+    if scenario.starts_with("c18-sim") {
+        println!("replaying {prop}: {scenario}");
+        let mut ch = vx_core::Chooser::from_choices(&choices);
+        let e = uringsim::scenario(&mut ch, scenario.contains("tier=thorough"));
+        for l in ch.describe() {
+            println!("  choice {l}");
+        }
+        match e.violation {
+            Some(v) => {
+                for a in &v.actions {
+                    println!("  {a}");
+                }
+                println!("VIOLATION clause={} : {}", v.clause, v.detail);
+                std::process::exit(1);
+            }
+            None => println!("no violation on this execution"),
+        }
+        return;
+    }
     if scenario.starts_with("c07-sim") {
         println!("replaying {prop}: {scenario}");
         let mut ch = vx_core::Chooser::from_choices(&choices);
